@@ -2,10 +2,10 @@
 //!
 use super::{BlockError, SentinelRule, Snapshot};
 use crate::{Error, Result};
-use lazy_static::lazy_static;
+use crate::vsync::lazy_static;
 use std::collections::HashMap;
 use std::fmt;
-use std::sync::{Arc, Mutex};
+use crate::vsync::{Arc, Mutex};
 
 type OtherBlockType = u8;
 
